@@ -355,10 +355,11 @@ class ArrayView(object):
 
     def count(self):
         es = self.elem_size()
-        if es and isinstance(self.store, BitStore) and known(self.requested) and self.requested is not None:
-            # a bit block carries its declared size whether or not its container is readable (or even locatable):
-            # the element count is always the declared one, the elements are simply not Ok
-            return self.requested // es
+        if es and isinstance(self.store, BitStore) and (self.store.null or self.store.size != self.requested):
+            # an array inside a `bits` block that is not readable (container cut off, absent or not locatable): the
+            # reference does not say what its element count is (the implementation answers the declared count in
+            # some of these situations and 0 in others)
+            return UNSPEC
         if self.store.null or not es:
             return UNKNOWN
         if self.store.size != self.requested:
